@@ -16,7 +16,7 @@ NEEDS = ["cli", "cli:ovf"]
 STATS = ["d-fu-li", "d-tajima", "f2", "f3", "f4", "fst", "king", "pi", "pi-xy", "r0", "r1", "s", "sum", "theta"]
 RULE = ("(1) EVERY statistic (14) x EVERY shape with 1-4 axes and lengths 1-4 (340 shapes) plus all 1-2 axis shapes up to length 10 and all 9-entry shapes, zero/positive data; (2) view/fold/create option values at and "
         "beyond their bounds (axes, projection targets 0 / larger / wrong dimensionality / 2^63 / 2^64-1, precision 0/17/65535/65536/10^6, threads); "
-        "(3) empty and 1-10 byte inputs and texts cut off after / interrupted by multi-byte UTF-8 characters, to all four subcommands by path and stdin; (4) absurd declared shapes in text and npy headers (0, 2^32, 2^63, "
+        "(2b) error exits and log lines with stderr pointing at /dev/full; (3) empty and 1-10 byte inputs and texts cut off after / interrupted by multi-byte UTF-8 characters, to all four subcommands by path and stdin; (4) absurd declared shapes in text and npy headers (0, 2^32, 2^63, "
         "wrapping products, up to 22000 axes); (5) contradictory sample lists; (6) hostile bytes: every single-byte substitution {^01, ^80, 00, ff, +1} "
         "at every offset of small vcf / vcf.gz / bgzf bcf / raw bcf / npy / text seed files (deterministic), the same on the uncompressed payload "
         "re-BGZF'd, plus seeded multi-site mutations, splices, digit runs -> huge numbers, truncations. Each run on the release and the "
@@ -24,7 +24,7 @@ RULE = ("(1) EVERY statistic (14) x EVERY shape with 1-4 axes and lengths 1-4 (3
         "non-zero exit with empty stderr, reproducible hang. Non-trivial: a run that did not exit 0 (i.e. the error path was exercised) or a "
         "degenerate-shape statistic; distinct = digest(argv, input).")
 ASSUMPTIONS = ["findings are keyed by (subcommand, normalised panic site); dependency sites are stable because Cargo.lock pins them",
-               "--threads above 1024 is out of scope (whether the OS refuses that many threads depends on the machine's limits)",
+               "--threads up to the tool's own limit (1024) is assumed to be spawnable on the machine running the check",
                "population counts between 20 and 25 are not generated: the 3^k-cell spectrum may or may not be allocatable on a given machine"]
 FLOORS = {"quick": {"evaluations": 30000, "distinct_nontrivial": 10000, "counts": {"stat_grid": 11000, "option_bounds": 300, "short_inputs": 300, "absurd_shapes": 150, "sample_lists": 60, "hostile_bytes": 15000}},
           "thorough": {"evaluations": 400000, "distinct_nontrivial": 150000, "counts": {"stat_grid": 11000, "hostile_bytes": 300000}}}
@@ -46,7 +46,11 @@ def classify(S, r, sub, cls, inp, kind, count):
         S.inconc("timeout (to be retried alone): %s %r" % (tag, r.argv))
         return "timeout"
     if r.panicked:
-        S.viol("C17:panic:%s:%s:%s" % (sub, cls.split(" ")[0], panic_sig(r.err)), "[%s] panicked: %s" % (tag, r.err.decode("utf-8", "replace").strip()[:300]), wit)
+        site = panic_sig(r.err)
+        if site.startswith("library/") and inp is not None:
+            # the panic location is inside std (e.g. a str slice): name the first caller outside std so that findings stay specific
+            site += "@" + first_foreign_frame(r, inp, kind)
+        S.viol("C17:panic:%s:%s:%s" % (sub, cls.split(" ")[0], site), "[%s] panicked: %s" % (tag, r.err.decode("utf-8", "replace").strip()[:300]), wit)
         return "panic"
     if r.signal:
         S.viol("C17:signal:%s:%d" % (sub, r.signal), "[%s] killed by signal %d: %r" % (tag, r.signal, r.err[:200]), wit)
@@ -58,6 +62,19 @@ def classify(S, r, sub, cls, inp, kind, count):
 
 
 MEM_LIMIT = 2 << 30
+
+
+def first_foreign_frame(r, inp, kind):
+    """Re-run a panicking invocation with RUST_BACKTRACE=1 and return the first frame that is not std/core/alloc."""
+    import re
+    rr = cli.sfs(r.argv, stdin=inp if r.stdin is not None else None, kind=kind, env={"RUST_BACKTRACE": "1"}, timeout=60)
+    for line in rr.err.decode("utf-8", "replace").splitlines():
+        m = re.match(r"\s+\d+: (.+)$", line)
+        if m:
+            name = m.group(1).strip().lstrip("<")
+            if not name.startswith(("core::", "std::", "alloc::", "__rustc", "rust_begin_unwind", "&", "core::str", "<core", "<alloc", "<std")):
+                return name.split(" as ")[0][:160]
+    return "unknown-caller"
 
 
 def _exec(args, inp, kind, via, timeout, mem_limit=MEM_LIMIT):
@@ -154,9 +171,32 @@ def part_options(S, p):
     cs = G.random_callset(rng, nsamples=3, nrecords=4, complete_only=True, extras=False)
     vcf = cs.to_vcf()
     for c in (["-p", "9223372036854775808"], ["-p", "18446744073709551615"], ["--project-shape", "0"], ["--project-shape", "1,1"], ["-t", "0"], ["-t", "1024"],
-              ["--project-shape", "18446744073709551615"], ["--precision", "65536", "-p", "1"], ["-p", "1", "--precision", "65535"], ["--strict", "-p", "1"]):
+              ["--project-shape", "18446744073709551615"], ["-t", "1025"], ["-t", "100000"], ["-t", "18446744073709551615"], ["-t", "1024"], ["--precision", "65536", "-p", "1"], ["-p", "1", "--precision", "65535"], ["--strict", "-p", "1"]):
         if (len(c[-1]) + p["i"]) % 2:
             run_case(S, ["create"] + c, vcf, "create", "option-bounds %s" % c[0], "option_bounds")
+
+
+# ---------------------------------------------------------------- (2b) unwritable stderr
+def part_stderr_full(S, p):
+    """Error exits and log lines with stderr pointing at /dev/full: the diagnostic cannot be delivered, but the process must
+    still end with an ordinary exit status - not a panic (101) and not a signal."""
+    rng = rng_for(S.seed, "c17", p["name"], "stderrfull")
+    cs = G.random_callset(rng, nsamples=3, nrecords=6, p_missing=0.4, p_multi=0, extras=False)
+    vcf = cs.to_vcf()
+    cases = [(["view"], b"#SHAPE=<3>\n1 2\n"), (["fold"], b"#SHA"), (["stat", "-s", "f2"], b"#SHAPE=<3>\n1 2 3\n"), (["create", "-v"], vcf), (["create", "-vv", "-t", "2"], vcfgen.bgzf(vcf)),
+             (["create", "--strict"], vcf), (["create", "-s", "nobody"], vcf), (["view", "--precision", "99999"], b"#SHAPE=<1>\n1\n"), (["create"], b"garbage"),
+             (["view", "-m", "7"], b"#SHAPE=<2/2>\n1 2 3 4\n"), (["create", "--debug"], vcf)]
+    mine = [c for k, c in enumerate(cases) if k % 4 == p["i"] % 4]
+    for args, inp in mine:
+        for kind in KINDS:
+            r = cli.sfs(args, stdin=inp, kind=kind, timeout=30, stderr_path="/dev/full")
+            S.count("stderr_full_runs")
+            wit = {"level": "C", "binary": kind, "argv": r.argv, "input_b64": E.b64(inp), "stderr": "/dev/full", "rc": r.rc}
+            if r.rc == 101:
+                S.viol("C17:panic:%s:stderr-full:exit-101" % args[0], "[%s with stderr -> /dev/full, %s binary] exit 101: a failed write to stderr became a panic" % (args, kind), wit)
+            elif r.signal:
+                S.viol("C17:signal:%s:%d" % (args[0], r.signal), "[%s with stderr -> /dev/full, %s binary] killed by signal %d" % (args, kind, r.signal), wit)
+            S.case(key=digest([args, inp.hex()[:200], kind, "stderrfull"]), nontrivial=r.rc != 0)
 
 
 # ---------------------------------------------------------------- (3) short inputs
@@ -343,6 +383,7 @@ def shard(S, p):
         return
     part_stat_grid(S, p)
     part_options(S, p)
+    part_stderr_full(S, p)
     part_short(S, p)
     part_absurd(S, p)
     part_samples(S, p)
